@@ -1,6 +1,6 @@
 (* IndexDb2Proofs.v — C11, part 3: remove_all_values, creation of an index with back-fill,
    removal of an index, growth / shrinking of the set of live elements. *)
-From Agdb Require Import Bytes DbValue Graph DbModel Search Queries DbValueProofs DbFrameProofs
+From Agdb Require Import Bytes DbValue Graph DbModel Search Queries DbValueEqProofs DbFrameProofs
   KvProofs KvDbProofs KvSelectProofs IndexProofs IndexDbProofs.
 From Coq Require Import ZifyBool ZifyNat ZifyN.
 Open Scope Z_scope.
